@@ -13,7 +13,7 @@ import (
 )
 
 func init() {
-	register("C04", "Structural clauses behind termination and honest results under faults, decided on all paths: every blocking channel operation of the transfer code is a select with a context/close-channel arm (or a range over a channel closed by one deferred close), a failed source access or diff is reported to the peer with an ERR packet before the goroutine returns (the receiver's deferred ERR send and the writer's deferred cancel test the named result of the function that installs them and cannot be skipped when it is non-nil), the receive loops return success only on the FIN arm (end of stream before FIN is an error), the receiver sends FIN only after a checked diff and a checked wait for the writers, no protocol or source-access error is dropped or survived, every goroutine is started through an errgroup whose Wait precedes the return, and walkers poll the context before each callback. In the walking code (filter, fs, hard-link filter, follow-links, stat, tar writer) no error of a stat, readlink, xattr listing, nested walk or constructor is dropped or survived (tolerated: not-found of a followed path, ENOTSUP of xattr listing, the error handed to the caller's callback); a deferred function replaces a walk callback's error result by SkipDir or nil only on the true edge of a predicate on that very error; DiskWriter.HandleChange retries itself only when the failed Mkdir reported EEXIST. Walk callbacks never go on after a non-nil error argument; no error result in packages fsutil and util is left unread (best-effort sends, closes and tabled callees excepted). The file ids both ends key their tables by are the zero-based positions in the STAT sequence (counter from 0, one increment per announced entry, registration with the pre-increment value; shared with C06/C07): two ends that agree with each other on any other numbering hand a conforming peer a neighbouring file's bytes. Does not decide time bounds, SIGKILL/crash recovery, convergence of a later transfer, or behaviour when the stream's own SendMsg/RecvMsg never return.", runC04)
+	register("C04", "Structural clauses behind termination and honest results under faults, decided on all paths: every blocking channel operation of the transfer code is a select with a context/close-channel arm (or a range over a channel closed by one deferred close), a failed source access or diff is reported to the peer with an ERR packet before the goroutine returns (the receiver's deferred ERR send and the writer's deferred cancel test the named result of the function that installs them and cannot be skipped when it is non-nil), the receive loops return success only on the FIN arm (end of stream before FIN is an error), the receiver sends FIN only after a checked diff and a checked wait for the writers, no protocol or source-access error is dropped or survived, every goroutine is started through an errgroup whose Wait precedes the return, and walkers poll the context before each callback. In the walking code (filter, fs, hard-link filter, follow-links, stat, tar writer) no error of a stat, readlink, xattr listing, nested walk or constructor is dropped or survived (tolerated: not-found of a followed path, ENOTSUP of xattr listing, the error handed to the caller's callback); a deferred function replaces a walk callback's error result by SkipDir or nil only on the true edge of a predicate on that very error; DiskWriter.HandleChange retries itself only when the failed Mkdir reported EEXIST. Walk callbacks never go on after a non-nil error argument; no error result in packages fsutil and util is left unread (best-effort sends, closes and tabled callees excepted). The file ids both ends key their tables by are the zero-based positions in the STAT sequence (counter from 0, one increment per announced entry, registration with the pre-increment value; shared with C06/C07): two ends that agree with each other on any other numbering hand a conforming peer a neighbouring file's bytes. The file the disk writer creates for content that arrives later stays empty until that content is written (no Truncate, write or seek on the placeholder), so that what an aborted run leaves behind differs in size from the source. Does not decide time bounds, SIGKILL/crash recovery, convergence of a later transfer, or behaviour when the stream's own SendMsg/RecvMsg never return.", runC04)
 }
 
 func runC04(c *Ctx) {
@@ -47,6 +47,7 @@ func runC04(c *Ctx) {
 	// made for only if ids are zero-based STAT positions on both ends (shared
 	// with C06/C07)
 	idNumbering(c, "R04.18", "R04.19", "R04.20")
+	r04_21(c, "R04.21")
 }
 
 // transferFuncs: non-test functions of packages fsutil and copy.
@@ -1602,4 +1603,86 @@ func allInstrsShallow(fn *ssa.Function) []ssa.Instruction {
 		out = append(out, b.Instrs...)
 	}
 	return out
+}
+
+// R04.21: what an aborted run leaves behind looks unfinished.
+//
+// The disk writer creates a regular file, applies the source's metadata -
+// the mtime included - and only then asks for the content. If the run dies in
+// between, the next run's differ (size, mtime, mode, owner) must see that the
+// file is not the source's: it does, because the placeholder is empty. Sizing
+// the placeholder up front (Truncate, a preallocating write, a seek) makes a
+// zero-filled file that compares equal, and every later transfer succeeds
+// over it. The file HandleChange creates is therefore only ever closed there,
+// or handed to the synchronous data callback.
+func r04_21(c *Ctx, rule string) {
+	c.R.Rule(rule, "DiskWriter.HandleChange: the file it creates for a regular entry is only closed or handed to processChange (the synchronous data path); no other method of the *os.File (Truncate, Write, Seek, ...) is called on the placeholder whose content arrives later")
+	hc := c.Fn(rule, "fsutil.(*DiskWriter).HandleChange")
+	if hc == nil {
+		return
+	}
+	n := 0
+	for _, open := range c.P.CallsTo(hc, "os.OpenFile", "os.Create") {
+		v := open.Value()
+		if v == nil {
+			continue
+		}
+		n++
+		var files []ssa.Value
+		for _, r := range eng.Referrers(v) {
+			if e, ok := r.(*ssa.Extract); ok && e.Index == 0 {
+				files = append(files, e)
+			}
+		}
+		bad := ""
+		var where ssa.Instruction
+		seen := map[ssa.Value]bool{}
+		var visit func(f ssa.Value, d int)
+		visit = func(f ssa.Value, d int) {
+			if seen[f] || d > 4 {
+				return
+			}
+			seen[f] = true
+			for _, r := range eng.Referrers(f) {
+				switch u := r.(type) {
+				case *ssa.MakeInterface:
+					visit(u, d+1)
+				case *ssa.ChangeInterface:
+					visit(u, d+1)
+				case *ssa.Phi:
+					visit(u, d+1)
+				case ssa.CallInstruction:
+					cc := u.Common()
+					name := c.P.CalleeName(u)
+					isRecv := len(cc.Args) > 0 && cc.Args[0] == f && strings.HasPrefix(name, "(*os.File).")
+					if cc.IsInvoke() && cc.Value == f {
+						isRecv = true
+						name = "(interface)." + cc.Method.Name()
+					}
+					switch {
+					case isRecv && strings.HasSuffix(name, ".Close"):
+					case !isRecv && name == "fsutil.(*DiskWriter).processChange":
+					case isRecv:
+						bad, where = name, u
+					case c.P.Transparent(cc.StaticCallee()):
+						// handed to a helper no rule names: not interpreted
+					default:
+						if bad == "" && name != "" && !strings.HasPrefix(name, "github.com/pkg/errors.") {
+							bad, where = "argument of "+name, u
+						}
+					}
+				}
+			}
+		}
+		for _, f := range files {
+			visit(f, 0)
+		}
+		con := c.siteName(open) + "/placeholder-stays-empty"
+		if bad != "" {
+			c.R.Fail(rule, con, c.pos(where), "the file created for a regular entry is touched before its content arrives ("+bad+"): a run that dies between the creation and the first chunk leaves a file with the final size and the source's mtime, which the next run's differ takes for the finished file - both ends report success over zero bytes")
+		} else {
+			c.R.OK(rule, con, c.pos(open), "the created file is only closed or handed to the synchronous data path")
+		}
+	}
+	c.R.Floor(rule, "file creations in HandleChange", n, 1)
 }
